@@ -46,9 +46,10 @@ TIMEOUT = {"quick": 1200, "thorough": 7200}
 
 # total number of generated histories per family (split over the shards)
 BUDGET = {
-    "quick": {"ext": 2400, "time": 480, "frf": 320, "psd": 240, "tree": 480, "uf": 960},
+    "quick": {"ext": 2400, "time": 480, "frf": 320, "psd": 240, "psdauf": 160, "tree": 480,
+              "uf": 960},
     "thorough": {"ext": 48000, "time": 8000, "frf": 5000, "psd": 4000, "tree": 7000,
-                 "uf": 20000},
+                 "uf": 20000, "psdauf": 3200},
 }
 NSLICE = {"quick": 16, "thorough": 16}
 
@@ -1282,8 +1283,8 @@ def _spd(r, np, n, cond=20.0):
     return (q * lam) @ q.T
 
 
-def _uf_system(r, np):
-    n = int(r.integers(1, 9))
+def _uf_system(r, np, n=None):
+    n = int(r.integers(1, 9)) if n is None else int(n)
     nrb = int(r.integers(0, n + 1)) if r.random() < 0.8 else 0
     nonrb = list(range(nrb, n))
     rfmode = int(r.integers(0, 5))
@@ -1580,6 +1581,78 @@ def nan_helpers(sh, cla, s, count):
             sh.violation("nan-helpers-inputs-unmutated", case, {}, tags)
 
 
+def fam_psdauf(sh, r, cla, ref, desc):
+    """DR_Results.solvepsd(..., use_apply_uf=True): the response PSD of every category is
+    sum_i forcepsd[i] * |recovery(apply_uf(unit FRF of force i))|^2 with apply_uf as
+    documented (static / dynamic displacement split, rb displacement zeroed, rf static) --
+    read from the per-case PSD store that psd_data_recovery consumes."""
+    import numpy as np
+    from types import SimpleNamespace
+    DR, cats, fieldrows = _make_defs(r, cla, "psd")
+    nm = fieldrows[cats[0]["f1"]]
+    S = _uf_system(r, np, nm)
+    nforce = int(r.integers(1, min(3, nm) + 1))
+    nx = int(r.integers(3, 12))
+    x = np.cumsum(r.integers(1, 5, nx) * 0.5) + 0.5
+    H = []
+    for i in range(nforce):
+        sc = float(10.0 ** r.integers(-2, 3))
+        H.append({f: (r.standard_normal((nm, nx)) + 1j * r.standard_normal((nm, nx))) * sc
+                  for f in ("a", "v", "d")})
+    fpsd = r.random((nforce, nx)) + 0.1
+    fs = _FakeFS(np, H)
+    fs.m_orig, fs.b_orig, fs.k_orig, fs.n = S["m"], S["b"], S["k"], nm
+    rfi = S["rfi"]
+    fs.rfsize = len(rfi)
+    if r.random() < 0.5:
+        fs.rf = np.zeros(nm, bool)
+        fs.rf[rfi] = True
+    else:
+        fs.rf = np.array(rfi, dtype=int)
+    tags = {"family": "psdauf", "n": nm, "nrb": S["nrb"], "nrf": len(rfi), "m": S["mk"],
+            "b": S["bk"], "k": S["kk"], "nforce": nforce}
+    case = dict(desc, **tags)
+    sh.case(["psdauf", desc["slice"], desc["i"]], True, sample=case)
+    sh.count("cell:psdauf-rf-" + ("none" if not rfi else "bool" if fs.rf.dtype == bool
+                                  else "index"))
+    sh.count("cell:psdauf-k-" + S["kk"])
+    ncase = int(r.integers(1, 3))
+    results = DR.prepare_results("mission", "event A")
+    mbk0 = [None if a is None else np.array(a, copy=True) for a in (S["m"], S["b"], S["k"])]
+    try:
+        for c in range(ncase):
+            results.solvepsd({"nrb": S["nrb"]}, f"LC {c}", DR, fs, fpsd * (c + 1),
+                             np.eye(nm)[:, :nforce], x, use_apply_uf=True)
+    except Exception as e:
+        import traceback
+        sh.violation("exception:solvepsd-apply_uf", case,
+                     {"exc": repr(e), "tb": traceback.format_exc()[-1200:]}, tags)
+        return
+    rf_arg = np.array(rfi, dtype=int) if rfi else None
+    for cat in cats:
+        want = 0.0
+        tol = 0.0
+        for i in range(nforce):
+            pg = np.zeros((nforce, nx))
+            pg[i] = 1.0
+            sol = SimpleNamespace(**H[i])
+            w = ref.apply_uf_ref(sol.a, sol.v, sol.d, pg, cat["uf"], S["m"], S["b"], S["k"],
+                                 S["nrb"], rf_arg)
+            S2 = dict(S, rf=rf_arg)
+            t = _uf_tol(ref, np, r, sol, cat["uf"], S2, w)
+            rsp = _cat_resp(np, cat, w)
+            want = want + fpsd[i] * np.abs(rsp) ** 2
+            tol = tol + fpsd[i] * (2 * np.abs(rsp) * t + t * t)
+        for c in range(ncase):
+            got = results[cat["name"]]._psd[f"LC {c}"]
+            sh.check_close("psd-apply_uf-response-psd", got, want * (c + 1),
+                           (tol + 1e-13 * np.abs(want)) * (c + 1) + 1e-300,
+                           dict(case, cat=cat["name"], field=cat["f1"], uf=cat["uf"]), tags)
+    _eq(sh, "psd-apply_uf-inputs-unmutated", all(
+        (a is None and b is None) or np.array_equal(a, b)
+        for a, b in zip(mbk0, (S["m"], S["b"], S["k"]))), True, case, tags)
+
+
 def run_shard(sh, params):
     import numpy as np  # noqa
     from pyyeti import cla
@@ -1589,7 +1662,7 @@ def run_shard(sh, params):
     only = params.get("only")
     if not only:
         nan_helpers(sh, cla, s, 40 if sh.tier == "quick" else 600)
-    for fam in ("ext", "time", "frf", "psd", "tree", "uf"):
+    for fam in ("ext", "time", "frf", "psd", "psdauf", "tree", "uf"):
         if only and fam not in only:
             continue
         func = globals().get("fam_" + fam)
@@ -1619,7 +1692,7 @@ MANDATORY_MONITORS = [
     "frf-values", "frf-abscissa", "frf-maxcase", "frf-mincase", "frf-percase",
     "frf-percase-abscissa", "frf-history", "frf-srs-percase", "frf-srs-envelope",
     "psd-values", "psd-abscissa", "psd-maxcase", "psd-mincase", "psd-percase", "psd-rms",
-    "psd-history", "psd-srs-percase", "psd-srs-envelope",
+    "psd-history", "psd-srs-percase", "psd-srs-envelope", "psd-apply_uf-response-psd",
     "calc_ext-values", "calc_stat_ext", "split-merge-values", "split-merge-srs",
     "tree-values", "tree-abscissa", "tree-abscissa-none", "tree-maxcase", "tree-mincase",
     "tree-percase", "tree-cases", "tree-srs-envelope", "tree-srs-percase",
